@@ -44,7 +44,7 @@ def shapes(ko: str, ki: str, T) -> List[Any]:
         I(ko, [a, b, c, ["L", 0]]),
         I(ko, [a, I(ki, [b, I(ki, [c, ["L", 0]])])]),
         I(ko, [a, b, ["L", 0], ["L", 1]]),
-        I(ko, [I("empty", []), a, None, b, c]),
+        I(ko, [I("empty", []), a, None, b, I("iter_empty", []), c]),
         I(ko, [I(ki, [I(ki, [a]), b]), c]),
         I(ko, [a, b, I("none", [])]),
         ["S", [a, I(ki, [b]), c]],
